@@ -276,7 +276,7 @@ type c02LineCase struct {
 	Layout []int  `json:"layout,omitempty"` // optional synthetic hyphen / newline layout appended to X
 }
 
-var c02LayoutAtoms = []string{"alpha", "bravo", "charlie", "delta", "echo", "foxtrot", " ", " ", "\n", "\n", "-\n", "-\n", "\n\n", "obtain-\ning", "-", " - ", "x", "a", "\t", "1.", "soft-\n", "-\n\n", "  \n"}
+var c02LayoutAtoms = []string{"alpha", "bravo", "charlie", "delta", "echo", "foxtrot", " ", " ", "\n", "\n", "-\n", "-\n", "\n\n", "obtain-\ning", "-", " - ", "x", "a", "\t", "1.", "soft-\n", "-\n\n", "  \n", "--\n", "---\n", "\u2014-\n", "ware--\n"}
 
 func c02LineGen(t *rapid.T) interface{} {
 	c := &c02LineCase{}
